@@ -12,6 +12,9 @@ func checkC01(c *Ctx, r *Report) {
 		"does not decide boxes in the irregular table, numeric loop bounds, children contents (each child is its own obligation), or fixed-point-ness of normalisations."
 	wireAssumptions(r)
 	ruleWDE(c, r)
+	for _, sp := range mp4Codecs {
+		reportCodecPart(r, c, analyseCodec(c, sp), "layout")
+	}
 	if n := ruleStickyError(c, r); n < 70 {
 		r.Undecided("O-STICKY", "scope", "", "box decoders that read from a bits.SliceReader not found")
 	}
